@@ -364,7 +364,7 @@ class QualitativeDiscretizer(BaseDiscretizer):
         for feature in self.features:
             if feature in self.values_orders:
                 order = self.values_orders[feature]
-                if any(x_copy[feature].isna()) and (self.str_nan not in order):
+                if any(x_copy[feature].isna()) and (not order.contains(self.str_nan)):
                     order.append(self.str_nan)
                     self.values_orders.update({feature: order})
 
